@@ -103,7 +103,6 @@ class Session:
         from textx.scoping import ModelLoader, ModelRepository, Postponed
 
         self.sc, self.root = sc, root
-        self.textx = textx
         self.lib = os.path.join(root, "lib") if sc["kind"] == "plain_search" else root
         os.makedirs(self.lib, exist_ok=True)
         self.fault_on = True
@@ -134,7 +133,6 @@ class Session:
         for p in sc["declared"]:
             mm.model_param_defs.add(p, "harness parameter " + p)
         pattern = os.path.join(root, "*.m")
-        self.relative_pattern = False
         if kind == "plain_uri":
             prov = sp.PlainNameImportURI()
         elif kind == "fqn_uri":
@@ -351,10 +349,13 @@ class Session:
                     if el.__class__.__name__ != "Use":
                         continue
                     i += 1
-                    t = el.ref
-                    tm = get_model(t)
-                    tl = self.labels.get(id(tm)) or self.label(tm)
-                    idx = [x for x in tm.elems if x.__class__.__name__ == "Def"].index(t) + 1
+                    try:                       # whatever is found there is the observation
+                        t = el.ref
+                        tm = get_model(t)
+                        tl = self.labels.get(id(tm)) or self.label(tm)
+                        idx = [x for x in tm.elems if x.__class__.__name__ == "Def"].index(t) + 1
+                    except Exception as e:  # noqa: BLE001
+                        tl, idx = {"f": "!" + type(e).__name__, "a": 0}, 0
                     tg.append({"m": lb, "i": i, "to": {"m": tl, "i": idx}})
         opens = [{"f": f, "n": n} for f, n in sorted(self.opens.items())]
         return {"res": res, "grepo": grepo, "incl": incl, "local": local, "opens": opens,
@@ -659,11 +660,6 @@ def random_scenario(rng, profile):
         session += [load(session[-2]["file"])] + [load() for _ in range(rng.choice([0, 1, 2]))]
     return dict(files=files, imports=imports, glob=glob, defs=defs, refs=refs, pad=pad, ind=ind, kind=kind,
                 grepo=grepo, builtin=builtin, declared=declared, fault=fault, session=session, clean=clean)
-
-
-def strip_events(events):
-    """The LoadEnd event carries the summary in the shape TraceLoaderRepo!Matches expects."""
-    return events
 
 
 # ----------------------------------------------------------------------------- the two conformance passes
